@@ -292,7 +292,12 @@ def gen_exact(rng, tier):
                 nb = rng.choice([1, 2, 63, 64, 65, 64 * len(l2), 64 * len(l2) - 1, 64 * (len(l2) - i), 64 * (len(l2) - i) - 70 if len(l2) - i > 1 else 5, rng.randrange(1, 64 * len(l2) + 130)])
                 yield "mpf_eq %s %s %x" % (F(u), F(w2), max(nb, 1))
                 yield "mpf_eq %s %s %x" % (F(u), F(w), max(nb, 1))
-            yield "mpf_eq %s %s %x" % (F(u), F(v), rng.randrange(1, 300))
+            yield "mpf_eq %s %s %x" % (F(u), F(v), rng.randrange(0, 300))
+            # n_bits = 0 / tiny with (prec+1)-limb operands whose top bit is set (eq.c read up[usize] before 9e50076)
+            p1 = rng.choice(PRECS); t1 = limbs_nz(rng, p1 + 1); t1[-1] |= 1 << 63
+            t2 = limbs_nz(rng, p1 + 1); t2[-1] |= 1 << 63
+            for nb in (0, 0, 1, rng.randrange(0, 3)):
+                yield "mpf_eq %s %s %x" % (fs(p1, u[1], e, t1), fs(p1, u[1], e, rng.choice([t1, t2])), nb)
         z = fs(2, False, 0, [])
         for op in ("mpf_neg", "mpf_abs", "mpf_set", "mpf_floor", "mpf_ceil", "mpf_trunc"):
             yield from both("%s %x 0 %s" % (op, rprec, z))
@@ -319,25 +324,6 @@ def gen_set(rng, tier):
         ds += [rng.getrandbits(64) for _ in range(reps)] + [rng.getrandbits(52 - rng.randrange(0, 52)) for _ in range(20)]
         for b in ds: yield from both("mpf_set_d %x %x" % (rprec, b))
 
-def gen_known(rng):
-    """inputs on which the pinned library violates the property (reported; enabled with VERIF_C13_KNOWN=1)"""
-    # mpf_ui_sub: 2 - (2 - B^-3) at 2-limb... precision 3: the result is B^-2 instead of B^-3
-    yield from both("mpf_ui_sub 3 0 4 4 1 [ffffffffffffffff,ffffffffffffffff,ffffffffffffffff,1] 2")
-
-def is_known(line):
-    """mpf_ui_sub (r, u, v) where the integer limb cancels (|u - v| < 1, v with exponent 1): ui_sub.c truncates v to
-       PREC(r) limbs BEFORE the cancellation (no prec+1, no x+1|000 / x|fff scan as in sub.c), so the error bound fails
-       (by a few bits up to whole limbs).  Reported finding; the predicate form of this family is emitted only with
-       VERIF_C13_KNOWN=1 (the exact form always runs).  (The zero-with-negative-exponent case of the same code was
-       fixed in /repo by 9e4173d.)"""
-    t = line.split(" ")
-    if t[0] != "mpf_ui_sub?": return False
-    size, exp, limbs, w = t[4], int(t[5].replace("-", "-0x") if t[5].startswith("-") else "0x" + t[5], 16), t[6][1:-1], int(t[7], 16)
-    if size.startswith("-") or size == "0" or exp != 1 or w == 0: return False
-    l = [int(x, 16) for x in limbs.split(",")]
-    V = sum(x << (64 * i) for i, x in enumerate(l)); sc = 1 << (64 * (len(l) - 1))
-    return abs(w * sc - V) < sc
-
 def gen_all(rng, tier):
     yield from gen_prec(rng, tier)
     yield from gen_addsub(rng, tier)
@@ -349,10 +335,7 @@ def gen_all(rng, tier):
     yield from gen_set(rng, tier)
 
 def gen_ops(rng, tier, ctx=None):
-    known = bool(os.environ.get("VERIF_C13_KNOWN"))
-    for line in gen_all(rng, tier):
-        if known or not is_known(line): yield line
-    if known: yield from gen_known(rng)
+    yield from gen_all(rng, tier)
 
 def nontrivial(line):
     return line if line.startswith("mpf_") and "[" in line or line.startswith("mpf_set_") else None
